@@ -613,4 +613,112 @@ theorem assemble_keys_nodup (impl : Impl) (ra : RA) (m : Option Str) (pd : Optio
   simp only [assemble]
   exact keys_nodup_normalize _
 
+/-! ### params objects: association lists, every pair kept -/
+
+theorem toUDict_spec {d : Dict} {u : UDict} (h : toUDict d = some u) :
+    u.map (·.1) = d.map (·.1) ∧ u.length = d.length ∧
+    ∀ (i : Nat) (k : Str) (v : HVal), d[i]? = some (k, v) → ∃ t, HVal.text v = some t ∧ u[i]? = some (k, t) := by
+  induction d generalizing u with
+  | nil => simp [toUDict] at h; subst h; simp
+  | cons kv r ih =>
+    obtain ⟨k0, v0⟩ := kv
+    simp only [toUDict] at h
+    cases ht : HVal.text v0 with
+    | none => simp [ht] at h
+    | some t0 =>
+      cases hr : toUDict r with
+      | none => simp [ht, hr] at h
+      | some u' =>
+        simp [ht, hr] at h; subst h
+        obtain ⟨h1, h2, h3⟩ := ih hr
+        refine ⟨by simp [h1], by simp [h2], ?_⟩
+        intro i k v hi
+        cases i with
+        | zero => simp at hi; obtain ⟨rfl, rfl⟩ := hi; exact ⟨t0, ht, by simp⟩
+        | succ j => simp at hi; simpa using h3 j k v hi
+
+def pairText (kv : Str × Str) : Str := quotePlus kv.1 ++ '=' :: quotePlus kv.2
+
+theorem urlencode_cons (kv kv' : Str × Str) (r : UDict) :
+    urlencode (kv :: kv' :: r) = pairText kv ++ '&' :: urlencode (kv' :: r) := by
+  obtain ⟨k, v⟩ := kv
+  simp [urlencode, pairText]
+
+theorem urlencode_single (kv : Str × Str) : urlencode [kv] = pairText kv := by
+  obtain ⟨k, v⟩ := kv; simp [urlencode, pairText]
+
+/-! ### the metaclass's table of wrappers -/
+
+/-- the value a dict built by successive assignments ends up with: the last one for the key -/
+def lookupLast {β} : List (Str × β) → Str → Option β
+  | [], _ => none
+  | (k, v) :: r, m =>
+    match lookupLast r m with
+    | some w => some w
+    | none => if k = m then some v else none
+
+def firstSome {β} : List (Option β) → Option β
+  | [] => none
+  | some x :: _ => some x
+  | none :: r => firstSome r
+
+theorem lookup_aset {β} (l : List (Str × β)) (k k' : Str) (v : β) :
+    lookup (aset l k v) k' = if k = k' then some v else lookup l k' := by
+  induction l with
+  | nil => simp [aset, lookup]
+  | cons kv r ih =>
+    obtain ⟨k0, v0⟩ := kv
+    by_cases h0 : k0 = k
+    · subst h0
+      by_cases h1 : k0 = k' <;> simp [aset, lookup, h1]
+    · by_cases h1 : k0 = k'
+      · subst h1
+        have : ¬ k = k0 := fun h => h0 h.symm
+        simp [aset, lookup, h0, this]
+      · simp [aset, lookup, h0, h1, ih]
+
+theorem lookup_asetAll {β} (acc l : List (Str × β)) (m : Str) :
+    lookup (asetAll acc l) m = match lookupLast l m with
+      | some v => some v
+      | none => lookup acc m := by
+  induction l generalizing acc with
+  | nil => simp [asetAll, lookupLast]
+  | cons kv r ih =>
+    obtain ⟨k, v⟩ := kv
+    have : asetAll acc ((k, v) :: r) = asetAll (aset acc k v) r := by simp [asetAll]
+    rw [this, ih, lookupLast]
+    cases lookupLast r m with
+    | some w => rfl
+    | none =>
+      simp only [lookup_aset]
+      by_cases hk : k = m <;> simp [hk]
+
+theorem lookup_foldl_bases {β} (bs : List (List (Str × β))) (acc : List (Str × β)) (m : Str) :
+    lookup (bs.reverse.foldl asetAll acc) m = match firstSome (bs.map (lookupLast · m)) with
+      | some v => some v
+      | none => lookup acc m := by
+  induction bs with
+  | nil => simp [firstSome]
+  | cons b r ih =>
+    simp only [List.reverse_cons, List.foldl_append, List.foldl_cons, List.foldl_nil, List.map_cons]
+    rw [lookup_asetAll]
+    cases hb : lookupLast b m with
+    | some v => simp [firstSome]
+    | none => simp only [firstSome]; exact ih
+
+/-- the table the metaclass builds: the wrapper of the class body wins; otherwise the entry of the
+first direct base (in the order of the class statement) whose table has the name -/
+theorem lookup_mergeMetas (bs : List (List (Str × Comps))) (own : List (Str × Comps)) (m : Str) :
+    lookup (mergeMetas bs own) m = match lookupLast own m with
+      | some c => some c
+      | none => firstSome (bs.map (lookupLast · m)) := by
+  unfold mergeMetas
+  rw [lookup_asetAll]
+  cases lookupLast own m with
+  | some c => rfl
+  | none =>
+    simp only []
+    rw [lookup_foldl_bases]
+    cases firstSome (bs.map (lookupLast · m)) <;> simp [lookup]
+
 end HttpConn
